@@ -175,14 +175,27 @@ func (c *mctx) has(k string) bool { return c.value(k).kind != mNil }
 
 var c10HelperNames []string
 
+// c10Late: helpers registered through plush.Helpers.Add in the middle of the running history (removed again when
+// the history ends). A context built afterwards receives them like any other default helper; contexts that
+// already exist, and their ancestors, are not touched.
+var c10Late []string
+
+func c10LateHelper1() string { return "late helper 1" }
+func c10LateHelper2() string { return "late helper 2" }
+
 func helperNames() []string {
 	if c10HelperNames == nil {
 		for k := range plush.Helpers.All() {
-			c10HelperNames = append(c10HelperNames, k)
+			if k != "xh1" && k != "xh2" {
+				c10HelperNames = append(c10HelperNames, k)
+			}
 		}
 		sort.Strings(c10HelperNames)
 	}
-	return c10HelperNames
+	if len(c10Late) == 0 {
+		return c10HelperNames
+	}
+	return append(append([]string{}, c10HelperNames...), c10Late...)
 }
 
 // inject applies the construction rule from the property text: a new context
@@ -208,7 +221,7 @@ func (c *mctx) inject() {
 
 var (
 	c10Keys     = []string{"a", "b", "len", "partial", "w", "A", "a.b", "contentFor:x", "_u", "Len"}
-	c10Observed = []string{"a", "b", "len", "partial", "w", "raw", "truncate", "contentFor", "zz", "A", "a.b", "contentFor:x", "_u", "Len"}
+	c10Observed = []string{"a", "b", "len", "partial", "w", "raw", "truncate", "contentFor", "zz", "A", "a.b", "contentFor:x", "_u", "Len", "xh1", "xh2"}
 )
 
 // swarm: each history draws its own small subsets of keys and values, so that
@@ -280,6 +293,12 @@ type wrappedKey string
 
 // c10Run executes one history against plush and the model.
 func c10Run(t *rapid.T) {
+	defer func() {
+		for _, n := range c10Late {
+			delete(plush.Helpers.Helpers(), n)
+		}
+		c10Late = nil
+	}()
 	mp := drawMapOrder(t)
 	drawSwarm(t)
 	obsMode := uni(t, "obsmode", 3)
@@ -343,6 +362,16 @@ func c10Run(t *rapid.T) {
 		kind := uni(t, "op", 12)
 		if len(live) == 0 {
 			kind = kind % 3
+		}
+		// a default helper registered while contexts already exist
+		if len(c10Late) < 2 && uni(t, "lateop", 40) == 0 {
+			name := []string{"xh1", "xh2"}[len(c10Late)]
+			hist = append(hist, fmt.Sprintf("plush.Helpers.Add(%q, fn)", name))
+			_ = plush.Helpers.Add(name, []interface{}{c10LateHelper1, c10LateHelper2}[len(c10Late)])
+			c10Late = append(c10Late, name)
+			count("c10_late_helper_registrations", 1)
+			checkAllMaybe()
+			continue
 		}
 		// the embedded context.Context is an exported field: assigning it is legal. On a root it replaces what
 		// string-key misses fall through to; on a nested scope it has no effect on string keys (the chain of
